@@ -23,7 +23,8 @@ P = 'acme.kw.v1'
 Q = lambda n: f'.{P}.{n}'
 WORDS = sorted(set(names.RESERVED) | set(keyword.kwlist))
 POSITIONS = ['top-field', 'nested-field', 'flattened', 'flattened-dotted', 'flattened-dotted-first', 'path-var', 'path-var-dotted-first',
-             'path-var-dotted-last', 'body-field', 'routing-field', 'rpc-name', 'rpc-name-capitalised', 'file-name']
+             'path-var-dotted-last', 'body-field', 'routing-field', 'required-query', 'required-query-default', 'rpc-name', 'rpc-name-capitalised',
+             'file-name']
 CONTROL_FILE_WORDS = ['metadata', 'retry', 'timeout', 'request']
 
 
@@ -61,7 +62,8 @@ def build(position, words):
             rpc = f'Flat{i}'
             meths.append(method(rpc, Q(f'Rq{i}'), Q('Resp'), http=('post', f'/v1/flatf/{i}', '*'), sigs=[f'{w}.name']))
             cells.append(dict(word=w, rpc=rpc, py=names.py_method(rpc), req=Q(f'Rq{i}')))
-    elif position in ('path-var', 'path-var-dotted-first', 'path-var-dotted-last', 'body-field', 'routing-field'):
+    elif position in ('path-var', 'path-var-dotted-first', 'path-var-dotted-last', 'body-field', 'routing-field', 'required-query',
+                      'required-query-default'):
         for w in words:
             i = widx[w]
             rq = f'Rq{i}'
@@ -79,6 +81,10 @@ def build(position, words):
             elif position == 'body-field':
                 msgs.append(message(rq, [field(w, 1, Q('Named')), field('extra', 2, 'string')]))
                 http = ('post', f'/v1/bf/{i}', w)
+            elif position in ('required-query', 'required-query-default'):
+                # a REQUIRED field that travels as query parameter: sent under its proto/JSON name, also when left at its default
+                msgs.append(message(rq, [field(w, 1, 'string', required=True), field('extra', 2, 'string')]))
+                http = ('get', f'/v1/rq/{i}')
             else:
                 msgs.append(message(rq, [field(w, 1, 'string'), field('extra', 2, 'string')]))
                 http = ('post', f'/v1/rf/{i}', '*')
